@@ -280,13 +280,36 @@ agraph ({xt}[2,4] x, {xt}[4] scale, {xt}[4] bias) => ({xt}[2,4] y)
 }}"""
 
 
+def fam_gelu(rng: Rng) -> str:
+    """Gelu sub-graphs (ort_fusions/gelu.py, erfgelu.py, bias_gelu.py: replacements live in the com.microsoft domain,
+    so a fired rule adds an opset import to the model)."""
+    variant = rng.choice(["erf_a", "erf_b", "tanh"])
+    n = rng.choice([4, 8])
+    pre = "xb = Add(x, bias)" if rng.chance(0.5) else "xb = Identity(x)"
+    if variant == "erf_a":      # gelu.py GeluErfFusion: Mul(Mul(x, Erf(x / sqrt2) + 1), 0.5)
+        body = "d = Div(xb, sqrt2)\n   e = Erf(d)\n   a = Add(e, one)\n   m = Mul(xb, a)\n   y = Mul(m, half)"
+    elif variant == "erf_b":    # erfgelu.py pattern 1: 0.5 * (x * (Erf(x / sqrt2) + 1))
+        body = "d = Div(xb, sqrt2)\n   e = Erf(d)\n   a = Add(e, one)\n   m = Mul(xb, a)\n   y = Mul(half, m)"
+    else:                       # gelu.py GeluTanhFusion
+        body = ("t1 = Pow(xb, three)\n   t2 = Mul(c044, t1)\n   t3 = Add(xb, t2)\n   t4 = Mul(s2pi, t3)\n   t5 = Tanh(t4)\n"
+                "   t6 = Add(t5, one)\n   t7 = Mul(half, t6)\n   y = Mul(xb, t7)")
+    return f"""<ir_version: 10, opset_import: ["" : {rng.choice([18, 20])}]>
+agraph (float[2,{n}] x, float[{n}] bias) => (float[2,{n}] y)
+<float sqrt2 = {{1.4142135623730951}}, float one = {{1.0}}, float half = {{0.5}}, float three = {{3.0}}, float c044 = {{0.044715}},
+ float s2pi = {{0.7978845608028654}}>
+{{
+   {pre}
+   {body}
+}}"""
+
+
 FAMILIES = {
     "pad_conv": fam_pad_conv, "pad_conv_tail": fam_pad_conv_fail_tail, "reshape_reshape": fam_reshape_reshape,
     "flatten": fam_flatten, "cast_cast": fam_cast_cast, "transpose": fam_transpose, "minmax": fam_minmax,
     "clip_relu": fam_clip_relu, "unsqueeze": fam_unsqueeze, "bn_conv": fam_batchnorm_conv, "bn_gemm": fam_batchnorm_gemm,
     "matmul_add": fam_matmul_add, "slice": fam_slice, "expand": fam_expand, "cast_cos": fam_cast_constant_of_shape,
     "mat_reshape": fam_materialize_reshape, "fold_chain": fam_fold_chain,
-    "rms_norm": fam_rms_norm, "layer_norm": fam_layer_norm,
+    "rms_norm": fam_rms_norm, "layer_norm": fam_layer_norm, "gelu": fam_gelu,
 }
 
 
